@@ -181,8 +181,18 @@ def _resample_fitswcs(fitswcs, factor, offset=0):
     offset = np.asarray(offset)
     if len(offset) != fitswcs.naxis:
         raise ValueError(f"Length of offset must equal number of dimensions {fitswcs.naxis}.")
-    # Scale plate scale and shift by offset.
-    fitswcs.wcs.cdelt *= factor
-    fitswcs.wcs.crpix = (fitswcs.wcs.crpix + offset) / factor
+    # Do not alter the input WCS.
+    fitswcs = fitswcs.deepcopy()
+    # Pixel p of the resampled grid is pixel p * factor + offset of the input grid. Hence the
+    # intermediate world coords, cdelt_i * sum_j(pc_ij * (p_j * factor_j + offset_j + 1 - crpix_j)),
+    # are reproduced by scaling the plate scale, scaling the columns of the PC matrix by the
+    # factors relative to their rows (unity unless coupled axes are resampled differently)
+    # and moving the reference pixel.
+    pc = fitswcs.wcs.get_pc()
+    resampled_pc = pc * factor[np.newaxis, :] / factor[:, np.newaxis]
+    if not np.allclose(resampled_pc, pc, rtol=1e-14, atol=0):
+        fitswcs.wcs.pc = resampled_pc
+    fitswcs.wcs.cdelt = fitswcs.wcs.cdelt * factor
+    fitswcs.wcs.crpix = (fitswcs.wcs.crpix + factor - 1 - offset) / factor
     fitswcs._naxis = list(np.round(np.array(fitswcs._naxis) / factor).astype(int))
     return fitswcs
